@@ -40,14 +40,15 @@ static bool same_as(const bxdecay0::event & ev, const ESpec & e, bool zero_time,
 {
   if (ev.get_generator() != e.label) { why = "generator label '" + ev.get_generator() + "' vs '" + e.label + "'"; return false; }
   double t = zero_time ? 0.0 : e.time;
-  if (fmt15(ev.get_time()) != fmt15(t)) { why = "event time " + fmt15(ev.get_time()) + " vs " + fmt15(t) + " written"; return false; }
+  auto eq15 = [](double got, double want) { return got == want || fmt15(got) == fmt15(want); };   // numerically equal (so -0 and 0 agree) or equal at 15 significant digits
+  if (!eq15(ev.get_time(), t)) { why = "event time " + fmt15(ev.get_time()) + " vs " + fmt15(t) + " written"; return false; }
   const auto & ps = ev.get_particles();
   if (ps.size() != e.parts.size()) { why = "particle count " + std::to_string(ps.size()) + " vs " + std::to_string(e.parts.size()); return false; }
   for (size_t i = 0; i < ps.size(); i++) {
     if ((int)ps[i].get_code() != e.parts[i].code) { why = "species of particle " + std::to_string(i); return false; }
     double got[4] = {ps[i].get_time(), ps[i].get_px(), ps[i].get_py(), ps[i].get_pz()}, want[4] = {e.parts[i].t, e.parts[i].px, e.parts[i].py, e.parts[i].pz};
     static const char * fn[] = {"time", "px", "py", "pz"};
-    for (int k = 0; k < 4; k++) if (fmt15(got[k]) != fmt15(want[k])) { why = std::string(fn[k]) + " of particle " + std::to_string(i) + ": " + fmt15(got[k]) + " read back, " + fmt15(want[k]) + " written"; return false; }
+    for (int k = 0; k < 4; k++) if (!eq15(got[k], want[k])) { why = std::string(fn[k]) + " of particle " + std::to_string(i) + ": " + fmt15(got[k]) + " read back, " + fmt15(want[k]) + " written"; return false; }
   }
   return true;
 }
